@@ -328,12 +328,10 @@ macro_rules! ad_seek {
         let mut outs: Vec<String> = vec![];
         for op in $ops.iter() {
             match op.as_slice() {
+                // a failed read does not end the scenario: positions and seeks afterwards are compared too
                 ["rw"] => match ad.read_word() {
                     Ok(w) => outs.push(hex(&w.to_ne_bytes())),
-                    Err(e) => {
-                        outs.push(canon_io(&e));
-                        break;
-                    }
+                    Err(e) => outs.push(canon_io(&e)),
                 },
                 ["wp"] => match ad.word_pos() {
                     Ok(p) => outs.push(p.to_string()),
